@@ -419,3 +419,22 @@ pub fn rc_new_fragmented() {
     vassert!(whole.pos == frag.pos, "range decoder: same number of bytes consumed under every fragmentation");
     vcover!(whole.pos == 5, "five_bytes_consumed");
 }
+
+
+//@ harness props=C12,C01 tier=quick unwind=7 unwindset=default_read_exact:6 mem_gb=3 timeout=300
+//@ bound: RangeDecoder::new on a source holding 6 symbolic bytes whose k-th read call fails once (k symbolic in 0..=1, the fault does not persist): the failure is returned, also when it hits the ignored first byte
+#[cfg_attr(kani, kani::proof)]
+#[cfg_attr(kani, kani::stub(std::fmt::format, crate::verif_common::stub_format))]
+#[cfg_attr(kani, kani::stub(std::io::Error::is_interrupted, crate::verif_common::stub_not_interrupted))]
+pub fn rc_new_source_fails() {
+    let mut t = Tape::<16>::new();
+    let data: [u8; 6] = t.bytes::<6>();
+    let k = (t.u8() % 2) as usize;
+    let mut rd = FailReader::<6>::new(data, 6, k);
+    let r = RangeDecoder::new(&mut rd);
+    let ok = r.is_ok();
+    forget(r);
+    vassert!(!ok, "new: a read failure while loading the five preamble bytes is an error (also on the ignored first byte)");
+    vcover!(k == 0, "fault_on_ignored_byte");
+    vcover!(k == 1, "fault_on_code_bytes");
+}
